@@ -1,6 +1,7 @@
 package main
 
 import (
+	"fmt"
 	"math/bits"
 	"sort"
 )
@@ -116,6 +117,7 @@ type synGen struct {
 	w      *bitW
 	defect string // first deliberate defect, "" if none
 	wild   bool   // allow deliberate defects
+	narrow bool   // narrow-image mode: short (2-D) distance codes, small ones above all, are over-represented
 }
 
 func (g *synGen) flaw(name string, num, den int) bool {
@@ -455,7 +457,11 @@ func (g *synGen) writeImageData(w, h int, level0 bool, pix func() uint32) {
 				length = npix - pos + 1 + r.Intn(3)
 			}
 			var code int
-			switch r.Intn(5) {
+			sel := r.Intn(5)
+			if g.narrow && r.Chance(3, 5) {
+				sel = 3
+			}
+			switch sel {
 			case 0: // far code: plain distance
 				code = 120 + 1 + r.Intn(pos)
 			case 1:
@@ -467,6 +473,11 @@ func (g *synGen) writeImageData(w, h int, level0 bool, pix func() uint32) {
 				}
 			case 3: // any short code; valid when the target is inside the image
 				code = 1 + r.Intn(120)
+				if g.narrow && r.Chance(1, 2) {
+					// the codes whose (dx,dy) has dy*width + dx < 1 for widths 1..8 all lie in 1..80;
+					// the smallest of them in 1..34
+					code = 1 + r.Intn(34)
+				}
 				if pos < 8*w+8 && !g.wild {
 					code = 2
 				}
@@ -568,8 +579,17 @@ func (g *synGen) writeImageData(w, h int, level0 bool, pix func() uint32) {
 var synPaletteSizes = []int{1, 2, 3, 4, 5, 15, 16, 17, 255, 256}
 
 // SynVP8L writes one random stream; it returns the payload and a short description.
-func SynVP8L(r *RNG) ([]byte, string) {
-	g := &synGen{r: r, w: &bitW{}, wild: r.Chance(1, 3)}
+func SynVP8L(r *RNG) ([]byte, string) { return synVP8L(r, false) }
+
+// SynVP8LNarrow: the same writer on pictures of width 1..8 and 10..70 rows (so that most copies
+// start beyond row 8, where every 2-D distance code is inside the picture), short distance codes
+// over-represented - among them the codes whose 2-D offset maps to a distance below 1 at that width
+// (the specification clamps it to 1); no colour-indexing pixel packing (it would narrow the width
+// further only for tiny palettes, which is kept) and no deliberate defects in 5 of 6 streams.
+func SynVP8LNarrow(r *RNG) ([]byte, string) { return synVP8L(r, true) }
+
+func synVP8L(r *RNG, narrow bool) ([]byte, string) {
+	g := &synGen{r: r, w: &bitW{}, wild: r.Chance(1, 3), narrow: narrow}
 	w, h := 1+r.Intn(12), 1+r.Intn(12)
 	switch r.Intn(6) {
 	case 0:
@@ -578,6 +598,13 @@ func SynVP8L(r *RNG) ([]byte, string) {
 		w, h = 1+r.Intn(40), 1
 	case 2:
 		w, h = 1+r.Intn(40), 1+r.Intn(20)
+	}
+	if narrow {
+		g.wild = r.Chance(1, 6)
+		w, h = 1+r.Intn(8), 10+r.Intn(61)
+		if r.Chance(1, 3) {
+			w = 1 + r.Intn(3)
+		}
 	}
 	bw := g.w
 	bw.put(0x2f, 8)
@@ -681,6 +708,9 @@ func SynVP8L(r *RNG) ([]byte, string) {
 		desc = "none+"
 	}
 	d := desc[:len(desc)-1]
+	if narrow {
+		d += fmt.Sprintf(" narrow=%dx%d", w, h)
+	}
 	if g.defect != "" {
 		d += " defect=" + g.defect
 	}
